@@ -66,6 +66,15 @@ CORPUS = {
     "rej.stack": [" PSHS S"],
     "rej.end": [" END NOWHERE"],
     "rej.fit": [" LDA <$1234"],
+    # symbols defined as other symbols, the origin named by a symbol, register lists naming the other stack pointer
+    "alias.fwd": ["SCREEN EQU VIDRAM", "VIDRAM EQU $0400", " LDX #SCREEN", " STA SCREEN"],
+    "alias.label": ["PTR EQU TARGET", " LDX #PTR", " LEAY PTR,PCR", "TARGET NOP"],
+    "rej.alias.cycle": ["VIDRAM EQU SCREEN", "SCREEN EQU VIDRAM", " NOP"],
+    "rej.alias.undef": ["FOO EQU NOPE", " NOP"],
+    "org.sym": ["BASE EQU $0E00", " ORG BASE", "S NOP", " JMP S"],
+    "rej.org.label": [" ORG S", "S NOP"],
+    "stack.other": [" PSHS U,Y,X", " PULU S,X"],
+    "rej.stack.other": [" PULU U,Y,X"],
 }
 INCLUDED = {"shared.asm": ["GETVAL LDA VALUE", " LDB VALUE+1", " LEAX VALUE,PCR", " RTS"], "other.asm": [" LDA TABLE,X", " LDA 5,X", "OTHER RTS"],
             "outer2.asm": [" NOP", " INCLUDE bad.asm"], "bad.asm": ["GOOD NOP", " FOO 1"], "loop1.asm": [" INCLUDE loop2.asm"],
